@@ -76,6 +76,7 @@ class Module(object):
         self.classes = {}                   # class name -> dict(bases=[...], truthy='len'|'always', len='expr text', iter='expr text')
         self.assumptions = []
         self.imports = []                   # other contract modules whose contracts/fields/spec are visible (callee contracts)
+        self.uninterp = {}
         self.spec_sorts = {}                # spec function name -> (param sorts, result sort) for recursive spec functions
 
     def fields(self, d):
@@ -85,6 +86,10 @@ class Module(object):
         self.spec_text += '\n' + text
         if sorts:
             self.spec_sorts.update(sorts)
+
+    def uninterpreted(self, name, params, result):
+        """spec function without definition (an abstract value the contract is parametric in)"""
+        self.uninterp[name] = (list(params), result)
 
     def axiom(self, label, text, vars=None):
         self.axioms[label] = (text, vars or [])
